@@ -45,6 +45,36 @@ func stepFuncs(c *Check, p *Prog, loop string, depth int, effects ...string) []*
 	return out
 }
 
+// stepFuncsAnchored: like stepFuncs, but the step is the nearest enclosing function (going up the
+// call chain from the effect towards the loop) that itself contains a call of anchor — the
+// function that picks what the step works on. The durable writes may sit in helpers below it.
+func stepFuncsAnchored(c *Check, p *Prog, loop string, depth int, anchor NodePred, effects ...string) []*ssa.Function {
+	root := p.MustFunc(loop)
+	g := BuildECFG(p, root, ExpandOpts{MaxDepth: depth})
+	c.NoteGraph(g)
+	hasAnchor := map[*Ctx]bool{}
+	for _, n := range g.Select(anchor) {
+		hasAnchor[n.Ctx] = true
+	}
+	seen := map[*ssa.Function]bool{}
+	var out []*ssa.Function
+	for _, n := range g.Select(IsCall(effects...)) {
+		fn := n.Ctx.Fn
+		for cx := n.Ctx; cx != nil && cx.Parent != nil; cx = cx.Parent {
+			if hasAnchor[cx] {
+				fn = cx.Fn
+				break
+			}
+		}
+		if !seen[fn] {
+			seen[fn] = true
+			out = append(out, fn)
+		}
+	}
+	sort.Slice(out, func(i, j int) bool { return out[i].String() < out[j].String() })
+	return out
+}
+
 // FreshPrecede: every y is preceded by an x that happened after the previous y (or after entry).
 // In a function without loops this is MustPrecede; in a loop it is the per-iteration order.
 // Returns a counterexample path or nil.
@@ -663,6 +693,84 @@ func (lv litView) Field(path string) []*Term {
 	}
 	for _, v := range litStores(lv.Al)[path] {
 		out = append(out, TermOf(v, lv.Ctx))
+	}
+	return out
+}
+
+// nilImpliesOK: t is a call of a repository function whose error result being nil implies that
+// the target call inside it returned nil: every value the function can return is definitely a
+// non-nil error, or the target call's own result, or (recursively) such a function's result — and
+// at least one is the target's. ("return m.store.SetHeight(…)" as the last statement of a helper.)
+func (p *Prog) nilImpliesOK(t *Term, isTarget func(*Term) bool, depth int) bool {
+	if t == nil || t.Op != "call" || depth <= 0 {
+		return false
+	}
+	rs := p.ReturnTerms(t)
+	if len(rs) == 0 {
+		return false
+	}
+	found := false
+	for _, r := range rs {
+		r = r.unconv()
+		for _, leaf := range flattenPhi(r) {
+			leaf = leaf.unconv()
+			switch {
+			case isTarget(leaf):
+				found = true
+			case leaf.IsCall("fmt.Errorf") || leaf.IsCall("errors.New") || leaf.IsCall("errors.Join"):
+			case leaf.Op == "global" && strings.Contains(leaf.Name, ".Err"):
+			case leaf.Op == "call" && p.nilImpliesOK(leaf, isTarget, depth-1):
+				found = true
+			default:
+				return false
+			}
+		}
+	}
+	return found
+}
+
+// calleesAndMethodValues: the repository functions fn calls statically, plus those it takes as a
+// method value or function value ("loop := m.normalLoop" … "loop(ctx)"), which it may call.
+func calleesAndMethodValues(p *Prog, fn *ssa.Function) []*ssa.Function {
+	out := staticCalleesOf(p, fn)
+	seen := map[*ssa.Function]bool{}
+	for _, f := range out {
+		seen[f] = true
+	}
+	add := func(f *ssa.Function) {
+		if f == nil {
+			return
+		}
+		// a bound-method wrapper stands for the method it forwards to
+		if f.Synthetic != "" && f.Blocks != nil {
+			for _, b := range f.Blocks {
+				for _, in := range b.Instrs {
+					if call, ok := in.(*ssa.Call); ok && call.Common().StaticCallee() != nil {
+						f = call.Common().StaticCallee()
+					}
+				}
+			}
+		}
+		if p.InRepo(f) && !seen[f] {
+			seen[f] = true
+			out = append(out, f)
+		}
+	}
+	for _, b := range fn.Blocks {
+		for _, in := range b.Instrs {
+			if mc, ok := in.(*ssa.MakeClosure); ok {
+				if f, ok := mc.Fn.(*ssa.Function); ok && f.Parent() != fn {
+					add(f)
+				}
+			}
+			for _, op := range in.Operands(nil) {
+				if f, ok := (*op).(*ssa.Function); ok {
+					if _, isCall := in.(ssa.CallInstruction); !isCall {
+						add(f)
+					}
+				}
+			}
+		}
 	}
 	return out
 }
